@@ -341,6 +341,44 @@ func runJSONDocs(c *runCtx) {
 	}
 }
 
+// long runs of numbers whose separators are damaged (a fast path over "number, number, ..." must still check them):
+// arrays of 20-200 elements with one or all commas replaced by a blank, '-', '.', 'e' or nothing, whole and cut
+func runJSONNumberRuns(c *runCtx) {
+	r := c.rng
+	n := 24
+	if c.tier == "thorough" {
+		n = 400
+	}
+	for it := 0; it < n; it++ {
+		cnt := 20 + r.Intn(180)
+		elems := make([]string, cnt)
+		for i := range elems {
+			elems[i] = []string{"10", "-2", "3.5", "1e3", "0", "20", "7"}[r.Intn(7)]
+		}
+		good := "[" + strings.Join(elems, ",") + "]"
+		c.jsonCase("numrun-valid", []byte(good), 0)
+		for _, bad := range []string{" ", "-", ".", "e", "", ",,"} {
+			// one separator damaged somewhere behind the first 64 bytes, and all of them
+			pos := cnt/2 + r.Intn(cnt/2-1)
+			one := "[" + strings.Join(elems[:pos], ",") + bad + strings.Join(elems[pos:], ",") + "]"
+			all := "[" + strings.Join(elems, bad+",")[0:] + "]"
+			if bad == "" || bad == " " || bad == "-" {
+				all = "[" + strings.Join(elems, bad) + "]"
+			}
+			for _, d := range []string{one, all, `{"type":"Feature","coordinates":` + one + `}`} {
+				if stdjson.Valid([]byte(d)) {
+					continue
+				}
+				c.jsonCase("numrun-damaged", []byte(d), 0)
+				c.jsonCase("numrun-damaged", []byte(d), uint32(len(d)+1))
+				if it%6 == 0 {
+					c.agree("numrun-damaged", []byte(d), 0, false)
+				}
+			}
+		}
+	}
+}
+
 // deep but legal nesting (the property promises depth up to 4096)
 func runJSONDeep(c *runCtx) {
 	type dd struct {
@@ -395,6 +433,7 @@ func init() {
 	commands["run-json"] = func(args []string) {
 		c := parseRunArgs(args)
 		runJSONDocs(c)
+		runJSONNumberRuns(c)
 		c.finish()
 	}
 }
